@@ -17,3 +17,7 @@ def parse(s):
         while pos < n and s[pos] not in ' ()': pos += 1
         return s[st:pos]
     return one()
+
+
+def show(x):
+    return x if isinstance(x, str) else "(" + " ".join(show(y) for y in x) + ")"
